@@ -14,6 +14,11 @@ CORPUS = os.path.join(common.VERIF, "corpus", PROP)
 MAX_CACHED = 20     # replaced by the value extracted from the source (gen facts) in run()
 
 
+
+def for_model(log):
+    """the harness' ground-truth records (TRUTH ...) are for the implementation-side oracle only; the model sees what the code did"""
+    return "".join(l for l in log.splitlines(True) if not l.startswith("TRUTH "))
+
 def build():
     ok, objs, log = common.build_lib()
     if not ok:
@@ -128,6 +133,10 @@ def oracle(log, bufsize=4096, max_cached=None, stats=None):
                     P.sink += int(w[3]); P.full = False
                 elif w[2] in ("err", "zero"):
                     P.err = True
+        elif w[0] == "TRUTH":
+            # splice mode: the kernel refused to take more into a pipe that holds data while input is pending = no buffer space remains
+            if P is not None and w[1] == "pending" and int(w[2]) > 0:
+                P.full = True
         elif w[0] == "CONTENT":
             if w[1] != "ok":
                 why = " ".join(w[2:]) or "content"
@@ -397,7 +406,7 @@ def examine(name, ops, tier, seed, res, cov, stats):
         p = common.write_case(PROP, name, small, tier, seed)
         res.impl_violations.append((signature(msg2), f"implementation violates C17: {msg2}", p))
         return
-    b = common.run_cmd([common.REPLAY_BIN, "pump"], a.stdout)
+    b = common.run_cmd([common.REPLAY_BIN, "pump"], for_model(a.stdout))
     div = [l for l in b.stdout.splitlines() if l.startswith(("DIVERGE", "bad-log"))]
     for l in b.stdout.splitlines():
         if l.startswith("COV "):
@@ -408,7 +417,7 @@ def examine(name, ops, tier, seed, res, cov, stats):
             if not o[0].startswith("new"):
                 return False
             x = run_impl(o)
-            y = common.run_cmd([common.REPLAY_BIN, "pump"], x.stdout)
+            y = common.run_cmd([common.REPLAY_BIN, "pump"], for_model(x.stdout))
             return any(l.startswith("DIVERGE") for l in y.stdout.splitlines())
         small = common.shrink(ops, still) if div else ops
         p = common.write_case(PROP, name, small, tier, seed)
@@ -489,7 +498,7 @@ def replay(path):
     common.lean_build(["ivyreplay"])
     a = run_impl(ops)
     print("--- implementation log"); print(a.stdout[-4000:], a.stderr[-2000:])
-    b = common.run_cmd([common.REPLAY_BIN, "pump"], a.stdout)
+    b = common.run_cmd([common.REPLAY_BIN, "pump"], for_model(a.stdout))
     print("--- model replay"); print(b.stdout[-2000:])
     msg = oracle(a.stdout.splitlines())
     print("--- oracle:", msg or "ok")
